@@ -30,6 +30,7 @@ func init() {
 			{"C05.restore-matrix", "owner, xattrs, mode and times are restored by every Create*; owner before mode", 10, c05RestoreMatrix},
 			{"C05.restore-times", "modification times are restored (two recorded findings)", 2, c05RestoreTimes},
 			{"C05.ordered-reassembly", "untar -i reassembles the chunk stream in index order", 2, c05Ordered},
+			{"C05.errors-not-dropped", "no error of the operations this property depends on is dropped", 1, func(c *Ctx) { c.errorsNotDropped("C05") }},
 		},
 	})
 }
